@@ -87,6 +87,12 @@ CLAIMS["C06"] = ("symbolic execution (symx) of the real EncodingDB.get_encoding,
          "name2unicode equals the Adobe Glyph List algorithm on uni/u names with symbolic hex digits and on underscore/dot compositions; ToUnicode precedes the encoding, else (cid:N); for symbolic FirstChar, "
          "Widths, MissingWidth, code and Type 3 FontMatrix the advance is Widths[code-FirstChar] or MissingWidth scaled by the font matrix. Static tables (base encodings, glyph list, standard-14 metrics) are data, not claimed.",
          "4.C06")
+CLAIMS["C07"] = ("symbolic execution (symx) of the real IdentityCMap(.Byte).decode, CMap.decode + FileCMap.add_code2cid, CMapParser.do_keyword (bfchar/bfrange), get_widths/get_widths2 and the CMapDB caches",
+         "For all byte strings up to 5 symbolic bytes the identity CMaps give the big-endian 2-byte (1-byte) codes and ignore a trailing odd byte; for every subset of the listed 1- and 2-byte codes and every string "
+         "of the bound the trie walk segments by first byte; bfchar / bfrange (increment and array forms) with symbolic code and target bytes register code s+i -> target+i per ISO 9.10.3; W / W2 arrays in both "
+         "syntaxes with symbolic codes and widths give exactly the listed code->width entries; the CMapDB caches return the right map for every 3-call history. NOT claimed: the predefined CJK tables and the "
+         "'agrees with platform codecs' clause (static data), embedded TrueType cmap tables.",
+         "4.C07")
 NA = {}
 def main():
     props = [json.loads(l) for l in open(os.path.join(ROOT, "properties.jsonl"))]
